@@ -459,7 +459,7 @@ func mutate(g *gen, root *rnode, unknown bool) string {
 func main() {
 	a := lib.ParseArgs()
 	out := lib.NewOut(a.Out)
-	out.Rule = "types line; kind x field matrix (every field of every registered struct x one sample of every value kind, exhaustive); random type-directed record trees (depth <= 4, sharing 20-70%) for togo (two routes) and echo; the same with one unknown field or one value of a random kind inserted at a random node; records of one type converted into another type (top level); records shared between a pointer field and an interface field (repeated, order of filling is random); non-trivial = the top record has at least one field; distinct = distinct (op,target,record) inputs"
+	out.Rule = "types line; field table (DetOrder, JsonTagMap) of every registered struct; bare value x bare slot conversions (every slot type occurring in the described structs x 20 value samples, records of every type, hashes, valid values); arrays with repeated elements (a b a), elements shared between two arrays, elements omitting fields, by value and by pointer / interface; kind x field matrix (every field of every registered struct x one sample of every value kind, exhaustive); random type-directed record trees (depth <= 4, sharing 20-70%) for togo (two routes) and echo; the same with one unknown field or one value of a random kind inserted at a random node; records of one type converted into another type (top level); records shared between a pointer field and an interface field (repeated, order of filling is random); non-trivial = the top record has at least one field; distinct = distinct (op,target,record) inputs"
 	// registration through the public API, before the interpreter is built
 	registerTypes()
 	zygo.RegisterDemoStructs()
@@ -520,6 +520,29 @@ func main() {
 	g0 := newGen(u, rng.Fork())
 	rn.matrix(g0)
 	out.Extra["matrix_exhaustive"] = true
+	rn.paths()
+	rn.slots(g0)
+	// arrays: repeated elements, elements shared between two arrays, elements omitting fields
+	var withArrays []*sinfo
+	for _, s := range g0.regStructs() {
+		if _, ok := newGen(u, lib.NewRng(1)).arrayRecord(s); ok {
+			withArrays = append(withArrays, s)
+		}
+	}
+	na := 300
+	if a.Tier == "thorough" {
+		na = 4000
+	}
+	for k := 0; k < na; k++ {
+		g := newGen(u, rng.Fork())
+		s := withArrays[g.r.Intn(len(withArrays))]
+		root, _ := g.arrayRecord(s)
+		if _, ok := rn.echo[s.goName]; ok && k%4 == 3 {
+			rn.caseEcho(root, s, "stream:arrays")
+		} else {
+			rn.caseTogo(root, s, "stream:arrays")
+		}
+	}
 
 	n := 2500
 	if a.Tier == "thorough" {
